@@ -17,7 +17,7 @@ ASSUMPTIONS = ["'memory attributed' is the library's own MemoryCache._estimate_o
                "the cache may serve an evicted value from its weak-reference table while the caller holds it (not a violation)"]
 COMPONENTS = {"real": ["MemoryCache, StorageBackendBase, filesystem data/metadata source", "tmpfs", "audit-hook read counter"],
               "stub": ["uuid4 (seeded)", "clock (virtual)", "mementos built by the harness"]}
-REACH = ["reads_with_held_memento", "evictions_observed", "hits_without_io", "miss_path_taken", "oversize_bypassed", "forget_everything", "forgot_live"]
+REACH = ["allocation_failures_injected", "reads_with_held_memento", "evictions_observed", "hits_without_io", "miss_path_taken", "oversize_bypassed", "forget_everything", "forgot_live"]
 
 
 def cases(tier, seed):
@@ -40,6 +40,15 @@ def cases(tier, seed):
                       mk(fc, 2, "third", 4), mk(fc, 3, "third", 5), ["read", fa, 1]]
             k = rng.randrange(len(ops) + 1)
             ops[k:k] = script
+        if rng.random() < 0.15:
+            # a failing allocation inside a cache insertion (the defensive copy of a DataFrame): afterwards the accounts must
+            # still be honest
+            for op in ops:
+                if op[0] == "memoize" and op[3].get("t") == "df" and rng.random() < 0.5:
+                    op[3]["alloc_fail"] = True
+            k = rng.randrange(len(ops) + 1)
+            ops[k:k] = [["memoize", "fa#1", 2, {"t": "df", "n": 400, "u": 700000 + i, "cls": "typed", "alloc_fail": True}, None],
+                        ["memoize", "fb#2", 2, {"t": "str", "n": 10, "u": 700001 + i, "cls": "tiny"}, None], ["read", "fb#2", 2]]
         out.append({"seed": s, "knobs": kn, "ops": ops})
     return out
 
